@@ -1,4 +1,4 @@
-\* X01 exhaustive: IO faults at create/write/rename and two crashes; the files survive
+\* X01 exhaustive: IO faults at create/write/rename and one crash; the files survive
 SPECIFICATION Spec
 CONSTANTS
   ConnKeys = {"k1"}
@@ -14,10 +14,10 @@ CONSTANTS
   EnvStateModules <- McOneMod
   EnvMsgModules <- McNone
   IoFaults = TRUE
-  MaxCrash = 2
+  MaxCrash = 1
   TrackInstants = FALSE
   TopN = 1
 INVARIANTS TypeOK FileNeverHalfWritten OverallStatusFunction CountsAreAdds MessageBounded ExtensionTopN
 PROPERTIES FileStaysPresent QuiescentSnapshot CountsMonotoneBetweenClears ClearEmptiesBoth PublishedCountsMonotone
-  EventCarriesPublishedStatus EventOnlyWhenDue EventWhenDue ClearOnlyWhenDue ClearWhenDue
+  EventCarriesPublishedStatus MonitorTruthful PublishesEveryIteration EventOnlyWhenDue EventWhenDue ClearOnlyWhenDue ClearWhenDue
 CHECK_DEADLOCK TRUE
